@@ -14,6 +14,15 @@ R1 order in `QueueManagerConnector.run` (CFG dominance / must-pass-through, batc
    when the waiting task is cancelled or a poll raises while the job is still queued; undeploy, which cancels exactly
    the registered ids (R3), then leaves that job in the queue.  (A handler that first cancels the job itself and then
    removes the id is reported too: run() has no such route today and it would need its own obligation.)
+   `_scheduled_jobs` follows the queue without a window: undeploy cancels exactly the registered ids (R3) and asyncio
+   can run it only while run() is suspended, so (a) no suspension point (await, async for / async with entry or exit)
+   lies on any normal or exception path between the exit edge of the test -- where run() learns that the job left the
+   queue -- and the removal of the id (seeded C27b-2 moved the pop behind the awaited `_get_output` /
+   `_get_returncode`: an undeploy landing there cancels a job that already left the queue), an await evaluated inside
+   the removing statement before the removal (Python evaluation order) included; and (b) none lies between the
+   completed submission and the registration (an undeploy landing there leaves the queued job in the queue).
+   Releasing the jobs-cache lock (type-checked to be an asyncio.Lock, whose `__aexit__` never yields) is not a
+   suspension point, acquiring it is.
 R2 siblings: every concrete `_get_running_jobs` (Slurm, PBS, Flux -- enumerated through the class table) that is
    memoised is memoised on exactly the cache object `run` clears (`self._jobs_cache`), and every call site of
    `_get_running_jobs` in the program holds the jobs-cache lock.  The `cache=` argument is interpreted as the callable
@@ -72,6 +81,7 @@ META = {
     "assumptions": [
         "cachebox.cached stores the result of an async function when its await completes (inside the caller's lock scope)",
         "asyncio.Lock is fair and asyncio runs other tasks only at await points",
+        "asyncio.Lock.__aexit__ releases the lock without yielding to the event loop (acquiring it may yield)",
     ],
 }
 
@@ -278,6 +288,92 @@ def r1(ctx):
     ctx.ob("R1", "every path from the loop exit removes the job id", bool(P) and bool(done) and esc is None, func=f, node=P[0].ast if P else A.ast, instance="run:pop-always",
            message="run can finish without removing the job id from _scheduled_jobs: undeploy would cancel a job that already left the queue",
            witness=g.describe(esc) if esc else [])
+    # 6. _scheduled_jobs follows the queue without a window: undeploy (R3) cancels exactly the registered ids, and
+    # asyncio runs it only at a suspension point of run().  So no suspension point may lie (a) between the exit edge
+    # of the test (run learnt that the job left the queue) and the removal of the id -- an undeploy landing there
+    # cancels a job that already left the queue (seeded C27b-2: pop moved behind the awaited _get_output /
+    # _get_returncode) -- nor (b) between the completed submission and the registration -- an undeploy landing
+    # there leaves the freshly queued job in the queue.  Releasing the (type-checked) asyncio.Lock is no suspension.
+    def _lock_release(n) -> bool:
+        return (lock is not None and n.kind == "with_exit" and isinstance(n.ast, ast.AsyncWith)
+                and all(dotted(it.context_expr) == lock for it in n.ast.items))
+
+    susp = {i for i in g.suspension_nodes() if not _lock_release(g.nodes[i])}
+    pop_calls = [c for n in P for c in n.calls() if _is_attr_call(c, F["jobs"], "pop")]
+
+    def _pop_late(n):
+        """an await of pop node n that completes before its removal takes effect"""
+        if isinstance(n.ast, ast.Delete):
+            return next((x for x in n.walk() if isinstance(x, ast.Await)), None)
+        for c in n.calls():
+            if c in pop_calls:
+                for x in n.walk():
+                    if isinstance(x, ast.Await) and _evaluated_before(x, c):
+                        return x
+        return None
+
+    w = _window(g, done, set(Pi), susp, lambda n: _pop_late(n) is not None) if P and done else None
+    wn = g.nodes[w[-1]] if w else None
+    ctx.ob("R1", "no suspension point between the loop exit and the removal of the job id", bool(P) and bool(done) and w is None, func=f,
+           node=wn.ast if wn is not None else (P[0].ast if P else A.ast), instance="run:pop-atomic",
+           message=(f"run suspends at `{wn.text(70)}` (L{wn.lineno}) after it learnt that the job left the queue and before `{_norm(P[0].ast)}`: "
+                    "an undeploy running during that await still finds the id in _scheduled_jobs and cancels a job that already left the queue") if wn is not None else
+                   "run has no removal of the job id behind the exit test", witness=g.describe(w) if w else [])
+    after_submit = [b for b, k in g.succ[A.id] if k in ("n", "t", "f")]
+    w = _window(g, after_submit, set(Bi), susp, lambda n: n.has_await()) if B else None
+    wn = g.nodes[w[-1]] if w else None
+    ctx.ob("R1", "no suspension point between the submission and the registration of the job id", bool(B) and w is None, func=f,
+           node=wn.ast if wn is not None else (B[0].ast if B else A.ast), instance="run:register-atomic",
+           message=(f"run suspends at `{wn.text(70)}` (L{wn.lineno}) between the submission and `{_norm(B[0].ast)}`: an undeploy running during that await "
+                    "does not find the queued job in _scheduled_jobs and leaves it in the queue") if wn is not None else "run does not register the job id",
+           witness=g.describe(w) if w else [])
+
+
+def _evaluated_before(w: ast.AST, c: ast.AST) -> bool:
+    """expression w (an await) of the same statement completes before call c is executed (Python evaluation order:
+    operands and arguments left to right before the call, assigned value before targets, IfExp test before arms)"""
+    aw, ac = [w, *ancestors(w)], [c, *ancestors(c)]
+    if c in aw:
+        return True  # inside the receiver / arguments of c
+    if w in ac:
+        return False  # c is (part of) the awaited expression
+    common = next((x for x in aw if x in ac), None)
+    if common is None:
+        return False
+    bw, bc = aw[aw.index(common) - 1], ac[ac.index(common) - 1]
+    if isinstance(common, ast.IfExp):
+        return bw is common.test
+    if isinstance(common, (ast.Assign, ast.AnnAssign, ast.AugAssign)):
+        return bw is common.value and bc is not common.value
+    return (w.lineno, w.col_offset) < (c.lineno, c.col_offset)
+
+
+def _window(g, srcs, stops: set[int], susp: set[int], stop_is_late) -> list[int] | None:
+    """Shortest path (normal and exception edges) from one of srcs to a suspension node that is reached before any
+    node of `stops`; a stop node itself counts when `stop_is_late(node)` (it awaits before taking effect)."""
+    prev = {}
+    todo = []
+    for s in srcs:
+        if s not in prev:
+            prev[s] = None
+            todo.append(s)
+    while todo:
+        nxt = []
+        for a in todo:
+            hit = stop_is_late(g.nodes[a]) if a in stops else a in susp
+            if hit:
+                out = [a]
+                while prev[out[-1]] is not None:
+                    out.append(prev[out[-1]])
+                return out[::-1]
+            if a in stops:
+                continue
+            for b, k in g.succ[a]:
+                if k in ("n", "t", "f", "exc") and b not in prev:
+                    prev[b] = a
+                    nxt.append(b)
+        todo = nxt
+    return None
 
 
 # =========================================================================== R2
@@ -897,7 +993,7 @@ def r5(ctx):
 
 
 RULES = [("R1", r1), ("R2", r2), ("R3", r3), ("R4", r4), ("R5", r5)]
-FLOORS = {"R1": 10, "R2": 4, "R3": 7, "R4": 3, "R5": 23}
+FLOORS = {"R1": 12, "R2": 4, "R3": 7, "R4": 3, "R5": 23}
 
 RUN = f"{QMC}.run"
 UND = f"{QMC}.undeploy"
@@ -908,6 +1004,9 @@ _LOOP = ("        while True:\n            async with self._jobs_cache_lock:\n  
          "            if job_id not in running_jobs:\n                break\n            await asyncio.sleep(self.pollingInterval)\n")
 _POP = "        self._scheduled_jobs.pop(job_id)\n"
 _LAM = "cache=lambda self: self._jobs_cache"
+_OUT = "await self._get_output(job_id, location) if stdout == asyncio.subprocess.STDOUT else None"
+_RC = "await self._get_returncode(job_id, location)"
+_RES = "(" + _OUT + ", " + _RC + ")"
 
 
 def _ind(text: str) -> str:
@@ -943,6 +1042,18 @@ VARIANTS = [
       "            try:\n                async with self._jobs_cache_lock:\n                    running_jobs = await self._get_running_jobs(location)\n            except Exception:\n                return (None, 1)\n", "R1"),
     V("poll failure treated as `job finished`", FILE, RUN, "            async with self._jobs_cache_lock:\n                running_jobs = await self._get_running_jobs(location)\n",
       "            try:\n                async with self._jobs_cache_lock:\n                    running_jobs = await self._get_running_jobs(location)\n            except Exception:\n                break\n", "R1"),
+    # ---- R1 (6): no suspension point between the observation of the queue and the bookkeeping in _scheduled_jobs
+    V("pop moved behind the awaited result collection (seeded C27b-2)", FILE, RUN, _POP + "        return " + _RES + "\n",
+      "        result = " + _RES + "\n        self._scheduled_jobs.pop(job_id, None)\n        return result\n", "R1"),
+    V("a suspension point between the loop exit and the pop", FILE, RUN, _POP, "        await asyncio.sleep(0)\n" + _POP, "R1"),
+    V("pop under the jobs-cache lock (acquiring it may suspend)", FILE, RUN, _POP, "        async with self._jobs_cache_lock:\n            self._scheduled_jobs.pop(job_id)\n", "R1"),
+    V("pop inside the result tuple, behind the awaited output", FILE, RUN, _POP + "        return " + _RES + "\n",
+      "        return (" + _OUT + ", (self._scheduled_jobs.pop(job_id), " + _RC + ")[1])\n", "R1"),
+    V("pop only after the output was fetched in the exit branch", FILE, RUN, "            if job_id not in running_jobs:\n                break\n",
+      "            if job_id not in running_jobs:\n                out = await self._get_output(job_id, location)\n                break\n", "R1"),
+    V("a suspension point between the submission and the registration", FILE, RUN, _REG, "        await asyncio.sleep(0)\n" + _REG, "R1"),
+    V("registration under the jobs-cache lock (acquiring it may suspend)", FILE, RUN, _REG + _CLEAR,
+      "        async with self._jobs_cache_lock:\n            self._scheduled_jobs[job_id] = location\n            self._jobs_cache.clear()\n", "R1"),
     # ---- R2
     V("one sibling caches on another cache object", FILE, f"{MOD}.PBSConnector._get_running_jobs", "cache=lambda self: self._jobs_cache", "cache=lambda self: self._other_cache", "R2", control=True),
     V("one sibling caches on a private TTLCache", FILE, f"{MOD}.FluxConnector._get_running_jobs", "cache=lambda self: self._jobs_cache", "cache=TTLCache(maxsize=1, global_ttl=5)", "R2"),
@@ -1017,5 +1128,14 @@ VARIANTS = [
       "def _cache_of(connector):\n    return connector._jobs_cache\n\n@cached(cache=_cache_of", None),
     V("lambda with another parameter name and a conditional expression", FILE, f"{MOD}.SlurmConnector._get_running_jobs", _LAM,
       "cache=lambda c, *_: c._jobs_cache if c.pollingInterval else getattr(c, '_jobs_cache')", None),
+    V("result collected into a temporary behind the pop", FILE, RUN, "        return " + _RES + "\n", "        result = " + _RES + "\n        return result\n", None),
+    V("exit test inside the lock hold (releasing an asyncio.Lock does not suspend)", FILE, RUN,
+      "            if job_id not in running_jobs:\n                break\n", "                if job_id not in running_jobs:\n                    break\n", None),
+    V("pop in the exit branch, before the break", FILE, RUN, "            if job_id not in running_jobs:\n                break\n            await asyncio.sleep(self.pollingInterval)\n" + _POP,
+      "            if job_id not in running_jobs:\n                self._scheduled_jobs.pop(job_id)\n                break\n            await asyncio.sleep(self.pollingInterval)\n", None),
+    V("pop evaluated first inside the returned expression", FILE, RUN, _POP + "        return " + _RES + "\n",
+      "        return (self._scheduled_jobs.pop(job_id), " + _OUT + ", " + _RC + ")[1:]\n", None),
+    V("exit test as a guard clause that continues", FILE, RUN, "            if job_id not in running_jobs:\n                break\n            await asyncio.sleep(self.pollingInterval)\n",
+      "            if job_id in running_jobs:\n                await asyncio.sleep(self.pollingInterval)\n                continue\n            break\n", None),
     V("result into locals", FILE, RUN, "        self._scheduled_jobs.pop(job_id)\n", "        self._scheduled_jobs.pop(job_id)\n        logger.debug('left the queue')\n", None),
 ]
